@@ -959,17 +959,27 @@ func runC14(ctx *Ctx) error {
 		{"{ items { label extra } }", "query { items { label extra } }"},
 		{"{ other ping }", "{ other ping }"},
 	}
-	for _, p := range pairs {
+	runPair := func(p [2]string) {
 		a, b := find(p[0]), find(p[1])
 		c14Check(ctx, idx, crafted(hour, rq(a), rq(b), rq(a), rq(b)))
 		idx++
+	}
+	// one witness of each known way to go wrong first: operation type, shared plan written by a
+	// subscription, fragment type condition, operation name
+	subI, subN, subL, qI := find("subscription { items { label extra } }"), find("subscription S { items { label extra } }"), find("subscription { items { label } }"), find("{ items { label extra } }")
+	runPair(pairs[0])
+	c14Check(ctx, idx, crafted(hour, sb(subI), sb(subI), rq(qI)))
+	idx++
+	runPair(pairs[5])
+	runPair(pairs[2])
+	for _, p := range pairs[1:] {
+		runPair(p)
 	}
 	// variable values under one plan
 	c14Check(ctx, idx, crafted(hour, rq(7), rq(8), rq(7)))
 	idx++
 	// the shared-plan histories: subscription, the same subscription again, then the query with the
 	// same selection; and the other way round
-	subI, subN, subL, qI := find("subscription { items { label extra } }"), find("subscription S { items { label extra } }"), find("subscription { items { label } }"), find("{ items { label extra } }")
 	for _, steps := range [][]c14Step{
 		{sb(subI), sb(subI), rq(qI)},
 		{rq(qI), sb(subI), rq(qI), sb(subI)},
